@@ -244,6 +244,27 @@ int main(int argc, char** argv)
                     poison(gl[l].error_correction());
                 }
             }
+            if (ext && fail.empty()) { // the residual of the extrapolated system (stopping test): 4/3 r_f on fine-only nodes, (4 r_f - r_c)/3 on coarse nodes
+                const PolarGrid& fg = gl[0].grid();
+                const PolarGrid& cg = gl[1].grid();
+                Vec rf(N), rc(cg.numberOfNodes());
+                for (int i = 0; i < N; i++)
+                    rf[i] = U(gen);
+                for (int i = 0; i < rc.size(); i++)
+                    rc[i] = U(gen);
+                Vec got(rf);
+                A::extrapolatedResidual(*G, 0, got, rc);
+                for (int ir = 0; ir < fg.nr() && fail.empty(); ir++)
+                    for (int it = 0; it < fg.ntheta(); it++) {
+                        int q       = fg.index(ir, it);
+                        double want = (ir % 2 || it % 2) ? 4.0 / 3.0 * rf[q] : (4.0 * rf[q] - rc[cg.index(ir / 2, it / 2)]) / 3.0;
+                        if (!(fabs(got[q] - want) <= 1e-14 * (1 + fabs(want)))) {
+                            fail = "extrapolated residual at node (" + std::to_string(ir) + "," + std::to_string(it) + ") = " + std::to_string(got[q]) +
+                                   ", definition " + std::to_string(want);
+                            break;
+                        }
+                    }
+            }
             Interp I(*R);
             for (const auto& d : c["defs"].arr())
                 I.defs[Interp::pathKey(d["p"])] = &d["d"];
